@@ -6,7 +6,7 @@ are outside the claim.
 """
 ID = 'C16'
 FUNCTIONS = [('devices', 'FBG'), ('utils', 'rcos')]
-BOUNDS = {'frequency bins': 'input length N = 4 (exact DFT), one and two polarisations',
+BOUNDS = {'frequency bins': 'input length N = 4 (thorough: also 2, 3, 5, 8 for the clauses after the ODE; exact DFT), one and two polarisations',
           'parameters': 'fc (or landa_D), kL / L / N-periods, vdneff (or dneff), neff, v, chirp F: symbolic reals; the four built-in apodisations '
                         'and a user callable',
           'stubs': 'solve_ivp returns an arbitrary complex state (R, S); tau_g / dispersion / find_peaks / peak_widths / si (printed summary and the '
@@ -193,7 +193,7 @@ def scen_after(env, cfg):
     """after the ODE: H = S/R, output = ifft(fft(in) * ifftshift(H)) in every polarisation, and the conditional energy bound."""
     D = env.lib.devices
     _setup(env)
-    N, pol = 4, cfg['pol']
+    N, pol = cfg.get('N', 4), cfg['pol']
     x, S = _field(env, N, pol)
     fc = env.real('fc', 1.9e14, 1.95e14)
     vd = env.real('vdneff', 1e-5, 1e-3)
@@ -266,4 +266,11 @@ def configs(tier):
     for pol in (1, 2):
         out.append((f'after-ode-pol{pol}', scen_after, dict(pol=pol), {'validate': 1}))
         out.append((f'after-ode-energy-pol{pol}', scen_after, dict(pol=pol, energy=True), {'validate': 1}))
+    if not q:
+        # thorough: other record lengths (odd included) for everything after the ODE, and more validation samples per configuration
+        for N in (2, 3, 5, 8):
+            out.append((f'after-ode-pol1-N{N}', scen_after, dict(pol=1, N=N), {'validate': 2}))
+        for N in (2, 3):
+            out.append((f'after-ode-pol2-N{N}', scen_after, dict(pol=2, N=N), {'validate': 2}))
+            out.append((f'after-ode-energy-pol1-N{N}', scen_after, dict(pol=1, N=N, energy=True), {'validate': 2}))
     return out
